@@ -277,7 +277,147 @@ def gen_specwrites():
     return 'SpecWrites.lean', text, echo
 
 
-GENERATORS = [gen_specidx, gen_specwrites]
+
+# ------------------------------------------------------------------ SpectralAnalyzer: which object each getter takes the sampling rate from
+AN_GETTERS = [('psd', 'psd'), ('cpsd', 'cpsd'), ('periodogram', 'periodogram'), ('multiTaper', 'spectrum_multi_taper'), ('fourier', 'spectrum_fourier')]
+RATE_NAMES = ('Fs', 'sampling_rate')
+
+
+def _u(n):
+    try:
+        return ast.unparse(n)
+    except Exception:
+        return '?'
+
+
+def classify_rate(e):
+    t = _u(e).replace('"', "'")
+    if t == 'self.input.sampling_rate':
+        return 'heldInput'
+    if t == "self.method.get('Fs', self.input.sampling_rate)":
+        return 'methodEntryOrHeld'
+    if t in ("self.method['Fs']", "self.method.get('Fs')"):
+        return 'methodEntry'
+    return 'unknown'
+
+
+def getter_spec(fn):
+    """(src, writesMethodFs, echo): every expression that reaches a `Fs=` / `sampling_rate=` argument, a positional rate of get_freqs, or a
+    local named Fs / sampling_rate; stores into ['Fs'] of self.method (or an alias of it); the method dict handed to a callee"""
+    if fn is None:
+        return 'unknown', False, 'NOT FOUND'
+    aliases = {'self.method'}
+    for n in ast.walk(fn):
+        if isinstance(n, ast.Assign) and _u(n.value) in aliases:
+            for t in n.targets:
+                aliases.add(_u(t))
+    local = {}
+    for n in ast.walk(fn):
+        if isinstance(n, ast.Assign) and len(n.targets) == 1 and isinstance(n.targets[0], ast.Name) and n.targets[0].id in RATE_NAMES:
+            local.setdefault(n.targets[0].id, []).append(n.value)
+    cands, writes, bad_write, passes_dict = [], False, False, False
+    for n in ast.walk(fn):
+        if isinstance(n, ast.Assign):
+            for t in n.targets:
+                if isinstance(t, ast.Subscript) and _u(t.value) in aliases and isinstance(t.slice, ast.Constant) and t.slice.value == 'Fs':
+                    if classify_rate(n.value) == 'heldInput':
+                        writes = True
+                    else:
+                        bad_write = True
+        if isinstance(n, ast.Call):
+            for kw in n.keywords:
+                if kw.arg in RATE_NAMES:
+                    cands.append(kw.value)
+                if kw.arg == 'method' and _u(kw.value) in aliases:
+                    passes_dict = True
+            if _u(n.func).endswith('get_freqs') and n.args:
+                cands.append(n.args[0])
+    for v in local.values():
+        cands += v
+    kinds = set()
+    for c in cands:
+        if isinstance(c, ast.Name) and c.id in local:
+            continue                                  # a local: its own assignment is a candidate already
+        kinds.add(classify_rate(c))
+    if passes_dict:
+        kinds.add('methodEntry')
+    if bad_write or len(kinds) != 1:
+        return 'unknown', writes, 'rate expressions: %s' % sorted(_u(c) for c in cands)
+    return kinds.pop(), writes, 'rate expressions: %s%s' % (sorted({_u(c) for c in cands}), '; method dict handed on' if passes_dict else '')
+
+
+def ctor_fs(fn):
+    """what SpectralAnalyzer.__init__ stores under 'Fs' in self.method: in the `method is None` branch / in the other branch"""
+    if fn is None:
+        return 'unknown', 'NOT FOUND'
+    ifs = [n for n in ast.walk(fn) if isinstance(n, ast.If) and _u(n.test) == 'method is None']
+    if len(ifs) != 1:
+        return 'unknown', '%d tests of `method is None`' % len(ifs)
+
+    def stores(body):
+        out = []
+        for st in body:
+            for n in ast.walk(st):
+                if isinstance(n, ast.Assign):
+                    for t in n.targets:
+                        if _u(t) == 'self.method' and isinstance(n.value, ast.Dict):
+                            for k, v in zip(n.value.keys, n.value.values):
+                                if isinstance(k, ast.Constant) and k.value == 'Fs':
+                                    out.append(classify_rate(v))
+                        if isinstance(t, ast.Subscript) and _u(t.value) == 'self.method' and isinstance(t.slice, ast.Constant) and t.slice.value == 'Fs':
+                            out.append(classify_rate(n.value))
+        return out
+    a, b = stores(ifs[0].body), stores(ifs[0].orelse)
+    # stores after the if statement apply to both branches
+    after = []
+    seen = False
+    for st in fn.body:
+        if st is ifs[0]:
+            seen = True
+        elif seen:
+            after += stores([st])
+    a, b = a + after, b + after
+    how = 'method None: %s; method given: %s' % (a, b)
+    if any(x != 'heldInput' for x in a + b):
+        return 'unknown', how
+    if a and b:
+        return 'always', how
+    if a and not b:
+        return 'onlyWhenMethodNone', how
+    if not a and not b:
+        return 'never', how
+    return 'unknown', how
+
+
+def gen_ansess():
+    tree = tr.parse('nitime/analysis/spectral.py')
+    rows, echo = [], {}
+    for lean, name in AN_GETTERS:
+        src, w, how = getter_spec(tr.find_func(tree, name, cls='SpectralAnalyzer'))
+        rows.append((lean, name, src, w, how))
+        echo[name] = {'rate_from': src, 'writes_method_Fs_from_held_input': w, 'how': how}
+    c, chow = ctor_fs(tr.find_func(tree, '__init__', cls='SpectralAnalyzer'))
+    echo['__init__'] = {'stores_Fs': c, 'how': chow}
+    # BaseAnalyzer.set_input must not touch self.method (the session model's set_input swaps the input and clears the memo only)
+    base = tr.parse('nitime/analysis/base.py')
+    si = tr.find_func(base, 'set_input', cls='BaseAnalyzer')
+    own = tr.find_func(tree, 'set_input', cls='SpectralAnalyzer')
+    touches = own is not None or si is None or any('method' in _u(n) for n in ast.walk(si) if isinstance(n, (ast.Assign, ast.AugAssign, ast.Call)))
+    echo['set_input'] = {'touches_method_or_overridden': bool(touches)}
+    lines = ['-- GENERATED by harness/translate_c04.py (gen_ansess) from SpectralAnalyzer (nitime/analysis/spectral.py, analysis/base.py). DO NOT EDIT.',
+             'import Nitime.Model.C04Sess', 'namespace Nitime.Generated.AnalyzerFs', 'open Nitime.C04.Sess', '']
+    for lean, name, src, w, how in rows:
+        lines += ['/-- `SpectralAnalyzer.%s`: %s -/' % (name, how.replace('-/', '- /')),
+                  'def %s : GetterSpec := ⟨.%s, %s⟩' % (lean, src, 'true' if w else 'false'), '']
+    lines += ['def table : Getter → GetterSpec', '  | .psd => psd', '  | .cpsd => cpsd', '  | .periodogram => periodogram', '  | .multiTaper => multiTaper', '  | .fourier => fourier', '',
+              '/-- `SpectralAnalyzer.__init__` (%s) -/' % chow.replace('-/', '- /'), 'def ctor : CtorFs := .%s' % c, '',
+              '/-- `set_input` is `BaseAnalyzer.set_input` and does not touch `self.method` -/',
+              'def setInputIsBase : Bool := %s' % ('false' if touches else 'true'), '',
+              'end Nitime.Generated.AnalyzerFs', '']
+    return 'AnalyzerFs.lean', '\n'.join(lines), echo
+
+
+GENERATORS = [gen_specidx, gen_specwrites, gen_ansess]
 
 if __name__ == '__main__':
     for g in GENERATORS:
